@@ -343,7 +343,10 @@ class YP(object):
         '''retract(Term) removes all dynamic facts matching Term and backtracks over identical clauses.'''
         name, args = self._goal_name_args(term)
 
-        remaining_clauses = self._find_predicates(name, len(args))[:]
+        try:
+            remaining_clauses = self._find_predicates(name, len(args))[:]
+        except YPException:
+            return # no facts: retract fails
         i = 0
         while i < len(remaining_clauses):
             clause = remaining_clauses[i]
@@ -359,8 +362,12 @@ class YP(object):
     def retractall(self, term):
         '''retractall(Term) removes all dynamic facts matching Term, without backtracking over identical clauses.'''
         name, args = self._goal_name_args(term)
+        try:
+            clauses = self._find_predicates(name, len(args))
+        except YPException:
+            return YPSuccess() # no facts: nothing to remove
         remaining_clauses = []
-        for clause in self._find_predicates(name, len(args)):
+        for clause in clauses:
             match = False
             for cut in clause.match(args):
                     match = True
